@@ -273,6 +273,9 @@ def run(F, rep, tier):
     from . import c12, visibility
     rep.attempt(c12.rule_r7, F, rep)
     rep.attempt(visibility.rule_partition, F, rep, "C07.R6")
+    # a parser panic on a malformed object comprehension (producer / consumer disagreement, C15.R7)
+    from . import c15
+    rep.attempt(c15.rule_r7, F, rep)
     rep.assume("evaluator data-stack balance, index/arithmetic-overflow panics and unreachable!() reachability are "
                "not decided (no whole-evaluator stack-effect typing)")
     return EXPLANATION
